@@ -223,7 +223,11 @@ type Model struct {
 	ResolveTimeout Dur
 	cal            map[string]*TimeInterval
 	keyRoutes      map[string]map[*MRoute]bool
+	// Union: notifications of every instance count (cluster: any instance may discharge an obligation).
+	Union bool
 }
+
+func (m *Model) mine(n *Notif) bool { return m.Union || n.Inst == m.Name }
 
 // KeyRoutes maps every (receiver, group key) seen in this instance's
 // notifications to the routes it can belong to: the routes r with that receiver
@@ -240,7 +244,7 @@ func (m *Model) KeyRoutes() map[string]map[*MRoute]bool {
 	m.keyRoutes = map[string]map[*MRoute]bool{}
 	gls := map[string]string{}
 	for _, n := range m.H.Notifs {
-		if n.Inst != m.Name {
+		if !m.mine(n) {
 			continue
 		}
 		k := n.Receiver + "\x00" + n.GroupKey
